@@ -20,7 +20,7 @@ from dvc_data.fs import DataFileSystem  # noqa: E402
 from dvc_data.hashfile.db import HashFileDB  # noqa: E402
 from dvc_data.hashfile.hash_info import HashInfo  # noqa: E402
 from dvc_data.hashfile.meta import Meta  # noqa: E402
-from dvc_data.index import DataIndex, DataIndexEntry, ObjectStorage  # noqa: E402
+from dvc_data.index import DataIndex, DataIndexEntry, FileStorage, ObjectStorage  # noqa: E402
 
 
 def md5(b):
@@ -57,6 +57,16 @@ def run_one(rng, tmp, i):
             cache.add_bytes(doid, listing[: len(listing) // 2])  # a truncated copy in the earlier storage: the intact one must be used
     cache_first = rng.random() < 0.5
 
+    # some loose files also have a path-addressed working copy ("data" storage) next to their object in the cache; the working copy
+    # was EDITED after the index was recorded: the adaptor has to deliver the bytes the index names (the object), not the edit
+    ws = os.path.join(tmp, f"ws{i}")
+    edited = {}
+    for k, d in loose.items():
+        if where[k] in ("cache", "both") and rng.random() < 0.5:
+            os.makedirs(ws, exist_ok=True)
+            edited[k] = b"edited after the index was recorded: " + d
+            open(os.path.join(ws, k[0]), "wb").write(edited[k])
+
     def mk(lazy):
         idx = DataIndex()
         idx.onerror = lambda *a: None  # a storage that cannot deliver is reported and the next one is tried
@@ -65,6 +75,8 @@ def run_one(rng, tmp, i):
         idx[("data",)] = DataIndexEntry(key=("data",), meta=Meta(isdir=True), hash_info=HashInfo("md5", doid))
         idx.storage_map.add_cache(ObjectStorage((), cache))
         idx.storage_map.add_remote(ObjectStorage((), remote))
+        if edited:
+            idx.storage_map.add_data(FileStorage((), lfs, ws))
         if not lazy:
             idx.load()
         return idx
@@ -124,7 +136,7 @@ def main():
                 failures.append({"problems": [f"raised {type(e).__name__}: {str(e)[:120]}"]})
     print(json.dumps({"evaluations": n, "distinct_nontrivial": n, "n_failures": len(failures), "failures": failures[:4],
                       "bound": f"{n} seeded indexes: one directory object (<= 5 files, depth <= 3) + <= 2 loose files, cache and remote storages, "
-                               "each object in cache / remote / both / neither, the directory listing possibly truncated in the cache and intact in the remote; cat_file, open, get_file, ls; lazy and expanded"}))
+                               "each object in cache / remote / both / neither, the directory listing possibly truncated in the cache and intact in the remote; cat_file, open, get_file, ls; lazy and expanded; loose files with an edited working copy registered as data storage next to the cached object"}))
 
 
 if __name__ == "__main__":
